@@ -211,7 +211,7 @@ def c03(tier, seed, replay):
 # ------------------------------------------------------------------------------------------------
 def handle_scenarios():
     n = lambda ext, l="A": ["CreateNode", str(ext), l]
-    return [
+    base = [
         {"id": "one-handle-at-a-time", "steps": [["open", "h1"], ["tx", "h1", [n(1)]], ["drop", "h1"], ["open", "h2"], ["tx", "h2", [n(2)]], ["close", "h2"]]},
         {"id": "second-open-same-process", "steps": [["open", "h1"], ["tx", "h1", [n(1)]], ["open", "h2"]]},
         {"id": "both-commit", "steps": [["open", "h1"], ["open", "h2"], ["tx", "h1", [n(1)]], ["tx", "h2", [n(2)]], ["drop", "h1"], ["drop", "h2"]]},
@@ -222,6 +222,24 @@ def handle_scenarios():
         {"id": "second-process", "steps": [["open", "h1"], ["tx", "h1", [n(1)]], ["child-open", "child"], ["tx", "h1", [n(2)]], ["close", "h1"]]},
         {"id": "second-process-after-close", "steps": [["open", "h1"], ["tx", "h1", [n(1)]], ["close", "h1"], ["child-open", "child"]]},
     ]
+    out = [dict(s, pre="none") for s in base]
+    # what lies at the path before the first open x the way each of the two handles is obtained
+    pres = ["none", "empty-ndb", "empty-wal", "both-empty", "zero-pages", "closed-db", "dropped-db"]
+    vias = ["engine", "db", "db-ndb", "db-wal", "symlink", "db-symlink"]
+    k = 0
+    for pre in pres:
+        for v1 in vias:
+            for v2 in vias:
+                # all pairs for the fresh and the pre-created cases are few enough; keep a spread of the others
+                if pre not in ("none", "empty-ndb") and (vias.index(v1) + 2 * vias.index(v2) + pres.index(pre)) % 4 != 0:
+                    continue
+                k += 1
+                out.append({"id": "pre:%s/%s+%s" % (pre, v1, v2), "pre": pre,
+                            "steps": [["open", "h1", v1], ["tx", "h1", [n(1)]], ["open", "h2", v2], ["tx", "h2", [n(2)]], ["tx", "h1", [n(3)]],
+                                      ["close", "h1"], ["close", "h2"]]})
+        out.append({"id": "pre:%s/child" % pre, "pre": pre,
+                    "steps": [["open", "h1", "db"], ["tx", "h1", [n(1)]], ["child-open", "child"], ["tx", "h1", [n(2)]], ["close", "h1"]]})
+    return out
 
 
 @reg("C10")
@@ -255,8 +273,10 @@ def c10(tier, seed, replay):
     cov = {"states": ok["states"], "transitions": ok["transitions"],
            "model": {"with_refusal_holds": True, "without_refusal_violates": neg.get("violated")},
            "traces_validated_against_impl": len(scenarios), "evaluations": len(scenarios), "distinct_nontrivial": len(scenarios) - 1,
-           "rule": "hand-written handle scenarios (same process and a child process; commits, compaction, close in both orders); "
-                   "non-trivial = a second open is attempted while a handle is open",
+           "rule": "handle scenarios: same process and a child process; commits, compaction, close in both orders; 7 states of the path "
+                   "before the first open (nothing, empty page file, empty log, both empty, zero-filled pages, cleanly closed database, "
+                   "dropped database) x 6 ways of obtaining each handle (engine paths, Db by base / .ndb / .wal path, through a symlinked "
+                   "directory); non-trivial = a second open is attempted while a handle is open",
            "harness_stats": stats, "binding_selftest": selftest, "samples": scenarios[:2], "known_findings_seen": nk}
     vlib.write_evidence("C10", tier, seed, "model_checking", cov, time.time() - t0, nv, ASSUME_COMMON)
     return 1 if nv else 0
